@@ -14,7 +14,7 @@ import (
 
 func init() {
 	mc.Register(&mc.Check{ID: "C04", Category: "exploration",
-		Rule:   "small-scope abstraction named by the property, walked by Engine A end-to-end through verify.TdxQuote with freshly signed TCB Info: <=3 listed levels, each level's comparison reduced to {all equal, all below, SGX fails at index 0/15, PCE SVN above, TDX fails at index 0/1/2/15} x status; TEE_TCB_SVN[1] in {0,1,3,0x0a}; TDX module identities {present, absent, other id only} with <=2 levels of isvsvn {equal, below, above} x status; identity fields FMSPC {equal, case-flipped, nibble off}, PCE-ID, MRSIGNERSEAM, SEAM attributes vs mask {equal, differs outside mask, differs inside mask, mask length off by one}; all decision vectors within the deviation bound plus the full product of the two first levels. Non-trivial: >=1 deviation; distinct by decision vector",
+		Rule:   "small-scope abstraction named by the property, walked by Engine A end-to-end through verify.TdxQuote with freshly signed TCB Info: <=3 listed levels, each level's comparison reduced to {all equal, all below, SGX fails at index 0/15, PCE SVN above, TDX fails at index 0/1/2/15} x status; TEE_TCB_SVN[1] in {0,1,3,0x0a}; TDX module identities {present, absent, other id only} with <=2 levels of isvsvn {equal, below, above} x status, or an empty / null level list; identity fields FMSPC {equal, case-flipped, nibble off}, PCE-ID, MRSIGNERSEAM, SEAM attributes vs mask {equal, differs outside mask, differs inside mask, mask length off by one}; all decision vectors within the deviation bound plus the full product of the two first levels. Non-trivial: >=1 deviation; distinct by decision vector",
 		Assume: append([]string{"values beyond the boundary-index abstraction (random SVN vectors) are sampling and are not explored", "PCE-ID hex case is kept lower-case (the library compares it case-sensitively; the statement does not settle case)"}, cryptoAssume...),
 		Run:    runC04})
 }
